@@ -304,7 +304,7 @@ class Engine:
             for label, p in c.ens():
                 try:
                     goal = zbool(self.spec(p, {'result': value}, params_only=True))
-                except (Unsupported, PyRaise) as err:
+                except (Unsupported, PyRaise, PathCut) as err:
                     # the clause cannot even be evaluated on this path's result (e.g. it reads a field of None):
                     # the result does not have the shape the postcondition describes - a failed obligation
                     self.oblige('post', label, z3.BoolVal(False), {'not_evaluable': str(err)[:200]})
@@ -467,6 +467,9 @@ class Engine:
         self.in_spec += 1
         try:
             return self.eval(e)
+        except PathCut:
+            # evaluating a clause must never end the path silently (the obligations behind it would be lost)
+            raise Unsupported(f'{self.c.qual}: clause cannot be evaluated on this path: {text[:80]}')
         finally:
             self.in_spec -= 1
             self.env = saved
@@ -679,8 +682,18 @@ class Engine:
     def x_While(self, n):
         k = self.loop_ids.get(id(n), -1)
         if k == -1 and not self.unroll:
-            for _ in range(3):
-                if not self.branch(self.truth(self.eval(n.test))):
+            budget, spent = 3, 0
+            while spent < budget:
+                g = self.truth(self.eval(n.test))
+                if z3.is_expr(g) and (z3.is_true(z3.simplify(g)) or z3.is_false(z3.simplify(g))):
+                    g = z3.is_true(z3.simplify(g))
+                if isinstance(g, bool):
+                    # a guard that is decided by concrete data is plain execution, not unrolling (capped)
+                    budget += 1
+                    if budget > 5000:
+                        raise Unsupported('concrete while loop runs more than 5000 iterations')
+                spent += 1
+                if not self.branch(g):
                     self.exec_block(n.orelse)
                     return
                 try:
@@ -873,7 +886,7 @@ class Engine:
     def div_guard(self, txt, nonzero):
         """Division: a safety obligation, unless the contract speaks about ZeroDivisionError - then it is a branch
         of the analysed code like any other `raise`."""
-        if 'ZeroDivisionError' in self.c.raises or 'ZeroDivisionError' in self.c.raises_bounds:
+        if ('ZeroDivisionError' in self.c.raises or 'ZeroDivisionError' in self.c.raises_bounds) and not self.in_spec:
             if not self.branch(nonzero):
                 raise PyRaise('ZeroDivisionError')
             return
@@ -1083,7 +1096,41 @@ class Engine:
                     parts.append(self.eval(v.value))
                 except (Unsupported, PyRaise):
                     parts.append(Opaque('unevaluated'))   # operands of log/exception texts are not modelled
+        if all(isinstance(p, str) for p in parts) and all(
+                isinstance(v, ast.Constant) or (v.conversion == -1 and v.format_spec is None) for v in e.values):
+            return ''.join(parts)                         # concrete text (e.g. a struct format f'>{size}')
         return FString(parts)
+
+    def e_ListComp(self, e):
+        """[elt for x in <statically known sequence> (if <concrete test>)]"""
+        if len(e.generators) != 1 or e.generators[0].is_async:
+            raise Unsupported('nested comprehension')
+        g = e.generators[0]
+        seq = self.eval(g.iter)
+        if isinstance(seq, PyList):
+            seq = seq.items
+        if not isinstance(seq, (list, tuple, str, bytes)):
+            raise Unsupported(f'comprehension over {seq!r}')
+        out = []
+        saved = self.env
+        self.env = {'__parent__': saved}
+        try:
+            for x in seq:
+                self.store(g.target, x)
+                keep = True
+                for cond in g.ifs:
+                    c = self.truth(self.eval(cond))
+                    if z3.is_expr(c):
+                        c = z3.simplify(c)
+                        if not (z3.is_true(c) or z3.is_false(c)):
+                            raise Unsupported('comprehension filter is symbolic')
+                        c = z3.is_true(c)
+                    keep = keep and c
+                if keep:
+                    out.append(self.eval(e.elt))
+        finally:
+            self.env = saved
+        return PyList(out)
 
     def e_Lambda(self, e):
         return Closure(e, self.env)
@@ -1225,10 +1272,16 @@ class Engine:
 
     def index(self, base, idx, e=None):
         txt = ast.unparse(e)[:50] if e is not None else ''
+        if isinstance(base, (str, bytes)) and isinstance(idx, int):
+            if not -len(base) <= idx < len(base):
+                raise PyRaise('IndexError')
+            return base[idx]
         if isinstance(base, tuple) or isinstance(base, PyList):
             items = base if isinstance(base, tuple) else base.items
             if isinstance(idx, int):
                 if not -len(items) <= idx < len(items):
+                    if self.in_spec:
+                        raise PyRaise('IndexError')      # a clause that reads past the list is not evaluable
                     self.oblige('safety', 'index:' + txt, z3.BoolVal(False))
                     raise PathCut()
                 return items[idx]
@@ -1258,7 +1311,7 @@ class Engine:
     def slice(self, base, lo, hi, e):
         if isinstance(base, (SeqFn, ArrList)) and hi is None:
             return SeqView(base, 0 if lo is None else lo)
-        if isinstance(base, (tuple, str)) and all(isinstance(x, (int, type(None))) for x in (lo, hi)):
+        if isinstance(base, (tuple, str, bytes)) and all(isinstance(x, (int, type(None))) for x in (lo, hi)):
             return base[lo:hi]
         if isinstance(base, PyList) and all(isinstance(x, (int, type(None))) for x in (lo, hi)):
             return PyList(base.items[lo:hi])
@@ -1305,6 +1358,8 @@ class Engine:
         try:
             for x in e.values:
                 v = self.truth(self.eval(x))
+                if z3.is_true(v) or z3.is_false(v):
+                    v = z3.is_true(v)        # a concrete operand (None, 0, '' ...) short-circuits as in Python
                 if isinstance(v, bool):
                     if v != is_and:          # short-circuit decides
                         vals.append(v)
@@ -1340,7 +1395,9 @@ class Engine:
             self.pc.append(cond)
             try:
                 vals[key] = self.eval(node)
-            except (Unsupported, PyRaise) as err:
+            except (Unsupported, PyRaise, PathCut) as err:
+                if isinstance(err, PathCut) and not self.in_spec:
+                    raise
                 # in a specification, a branch that cannot even be evaluated (e.g. a field of None) is acceptable
                 # only if the path condition rules that branch out
                 if not self.in_spec or self.feasible(z3.BoolVal(True)):
@@ -1399,6 +1456,11 @@ class Engine:
     def binop(self, op, a, b, e=None):
         txt = (ast.unparse(e) if e is not None else '')[:50]
         a, b = self.num(a, e), self.num(b, e)
+        if isinstance(a, bytes) and isinstance(b, bytes) and isinstance(op, ast.Add):
+            return a + b
+        if isinstance(op, ast.Mult) and ((isinstance(a, bytes) and isinstance(b, int)) or (isinstance(a, int) and isinstance(b, bytes))) \
+                and not isinstance(a, bool) and not isinstance(b, bool):
+            return a * b
         # --- time values
         if isinstance(a, (TD, DT)) or isinstance(b, (TD, DT)):
             if isinstance(op, ast.Add):
@@ -1660,6 +1722,17 @@ class Engine:
                 o = self.eval(e.args[0])
                 if isinstance(o, Obj):
                     return o.f[e.args[1].value] if e.args[1].value in o.f else self.eval(e.args[2])
+            if name == 'getattr' and len(e.args) in (2, 3) and not isinstance(e.args[1], ast.Constant):
+                attr = self.eval(e.args[1])
+                if isinstance(attr, str):
+                    o = self.eval(e.args[0])
+                    if len(e.args) == 3 and isinstance(o, Obj) and attr not in o.f:
+                        return self.eval(e.args[2])
+                    return self.getattr(o, attr, ast.unparse(e))
+            if name == 'hasattr' and len(e.args) == 2 and isinstance(e.args[1], ast.Constant):
+                o = self.eval(e.args[0])
+                if isinstance(o, Obj):
+                    return e.args[1].value in o.f       # the sidecar env declares the object's shape
             if name == 'cast' and len(e.args) == 2:
                 return self.eval(e.args[1])          # typing.cast(T, v) is v
             if name == 'isinstance':
@@ -1677,7 +1750,8 @@ class Engine:
             if ctor is not None:
                 return ctor(self, args, kwargs)
             if name in self.world.get('__inline_ctors__', ()):
-                cls = self.src.find_class(name)
+                ic = self.world['__inline_ctors__']
+                cls = (Source.get(self.repo, ic[name]) if isinstance(ic, dict) and ic[name] else self.src).find_class(name)
                 init = next((m for m in cls.body if isinstance(m, ast.FunctionDef) and m.name == '__init__'), None) if cls else None
                 if init is None:
                     raise Unsupported(f'constructor {name}: class or __init__ not found in {self.src.relpath}')
@@ -1788,6 +1862,8 @@ class Engine:
                 and all(type(x).__name__ == 'BSeq' for x in args[0].items):
             from .models.bytesmodel import join
             return join(recv, args[0].items)
+        if isinstance(recv, str) and name == 'join' and isinstance(args[0], PyList) and all(isinstance(x, str) for x in args[0].items):
+            return recv.join(args[0].items)
         if recv == '' and name == 'join' and isinstance(args[0], PyList):
             from .models.text import Joined
             return Joined(list(args[0].items))
@@ -2011,6 +2087,10 @@ class Engine:
                 return zint(v.hi) - zint(v.lo)
             if hasattr(v, 'len'):
                 return v.len(self)
+            if isinstance(v, Obj) and self.find_contract(v.cls, '__len__') is not None:
+                return self.call_contract_or_inline(self.find_contract(v.cls, '__len__'), v, [], {})
+            if isinstance(v, bytes):
+                return len(v)
             raise Unsupported(f'len of {v!r}')
         if name == 'round':
             v = self.num(args[0], e)
@@ -2037,6 +2117,13 @@ class Engine:
             v, t = args[0], e.args[1]
             tn = [ast.unparse(x) for x in (t.elts if isinstance(t, ast.Tuple) else [t])]
             return self.isinstance(v, tn)
+        if name == 'bytes' and len(args) == 2 and isinstance(args[0], str) and args[1] in ('utf-8', 'ascii'):
+            return bytes(args[0], args[1])
+        if name == 'str' and len(args) == 2 and isinstance(args[0], bytes) and args[1] in ('utf-8', 'ascii'):
+            try:
+                return str(args[0], args[1])
+            except UnicodeDecodeError:
+                raise PyRaise('UnicodeDecodeError')
         if name == 'str':
             from .models.bytesmodel import BSeq
             if args and isinstance(args[0], BSeq) and len(args) == 2 and args[1] == 'ascii':
@@ -2051,6 +2138,16 @@ class Engine:
             raise Unsupported('bytearray(...)')
         if name == 'memoryview' and (isinstance(args[0], Slice) or type(args[0]).__name__ == 'BitsBytes'):
             return args[0]
+        if name == 'list' and len(args) == 1 and isinstance(args[0], (str, tuple)):
+            return PyList(list(args[0]))
+        if name == 'ord' and isinstance(args[0], (str, bytes)) and len(args[0]) == 1:
+            return ord(args[0])
+        if name == 'chr' and isinstance(args[0], int):
+            return chr(args[0])
+        if name == 'ord' and type(args[0]).__name__ == 'Packed':
+            if args[0].n != 1:
+                raise PyRaise('TypeError')
+            return zint(args[0].u)
         if name == 'divmod':
             a, b = zint(args[0]), zint(args[1])
             self.oblige('safety', 'div:divmod', b != 0)
@@ -2083,6 +2180,10 @@ class Engine:
             return False
         if v is None:
             return False
+        if isinstance(v, (bytes, bytearray)):
+            return bool(kinds & {'bytes', 'bytearray'})
+        if hasattr(v, 'py_types'):
+            return bool(kinds & set(v.py_types))        # a model object says which Python types it stands for
         raise Unsupported(f'isinstance of {v!r}')
 
     def library(self, ftxt, e):
